@@ -19,7 +19,7 @@ import re
 from harness import core, hier
 
 PROCS = int(os.environ.get("VERIF_PROCS", "8"))
-TLC_FIELDS = ("outcome", "h", "o")
+TLC_FIELDS = ("outcome", "h", "o", "gen")
 
 
 def real_entries(quick: bool):
@@ -136,6 +136,8 @@ def main() -> int:
         entries = [{"case": c} for c in cases] + real_entries(ck.quick)
     # R
     obs = run_r(ck, entries, "main")
+    for r, e in zip(obs, entries):
+        r["gen"] = "case" in e
     bad = [r for r in obs if not r["extract_ok"]]
     if bad:
         raise core.MachineryFailure("the independent reader of the source hierarchy disagrees with the generated case (renderer or reader wrong): %s" % bad[0]["extract_diff"][:600])
@@ -166,7 +168,7 @@ def main() -> int:
     ck.cov["accepted_with_diamond"] = n_diamond
     ck.cov["source_reading_expects_refusal"] = n_exp_refused
     ck.cov["expected_refusal_but_accepted"] = n_refused_but_accepted
-    ck.cov["expected_acceptance_but_refused"] = n_ok_but_refused
+    ck.cov["generated_expected_accepted_but_not"] = n_ok_but_refused
     ck.cov["by_part"] = {}
     for r in obs:
         d = ck.cov["by_part"].setdefault(r["part"], {"accepted": 0, "rejected": 0, "exception": 0})
@@ -179,8 +181,19 @@ def main() -> int:
     ]
     if n_exp_refused and n_refused_but_accepted:
         ck.notes.append("%d model(s) were accepted although the source-level reading (cycle / inconsistent with_model_type / method clash) expects refusal; not a C05 matter (see C06)" % n_refused_but_accepted)
-    if n_ok_but_refused:
-        ck.notes.append("%d model(s) were refused although no source-level reason of Hierarchy.tla applies (recorded only: C05 speaks about accepted models)" % n_ok_but_refused)
     if not replay and (n_nontrivial == 0 or n_diamond == 0):
         raise core.MachineryFailure("vacuous run: accepted non-trivial=%d diamonds=%d" % (n_nontrivial, n_diamond))
-    return ck.finish()
+    if n_ok_but_refused:
+        ck.notes.append("%d generated hierarchies without a source-level reason for refusal were not accepted" % n_ok_but_refused)
+    rc = ck.finish()
+    # violations are reported first (exit 1); a partly vacuous run without violations is a machinery failure
+    if n_ok_but_refused and not replay and rc == 0:
+        cands = [r for r in obs if r["gen"] and r["outcome"] != "accepted"]
+        first = next((r for r in cands if r["outcome"] == "exception"), cands[0] if cands else obs[0])
+        raise core.MachineryFailure(
+            "%d generated hierarchies were not accepted although no source-level reason for a refusal applies (cycle, inconsistent "
+            "with_model_type, method clash, property assigned twice): that part of the case space is not being checked, the run would be "
+            "partly vacuous.  C05 itself is conditional on acceptance (crashes are C01's matter).  First: outcome=%s bases=%s %s %s"
+            % (n_ok_but_refused, first["outcome"], first["h"]["bases"], first["error"][-200:], first["exc"][:300])
+        )
+    return rc
